@@ -139,8 +139,8 @@ def run(ctx, props, mine, known, names, what):
     own = [m for m in mon if m[2] in mine or m[2] in known]
     cov.update({
         "evaluations": rep["steps"], "distinct_nontrivial": rep["distinct_cases"],
-        "rule": "whole-application runs (real app.App through ABCI, Replica): replays of the recorded findings (all fixed: expected to HOLD) + 5 witnesses + the 5 directed "
-                "scenarios + adversarial-amount histories (19 value-moving kinds x amounts {-2^64,-1,0,1,base-1,base,base+1,2^63-1,2^63,2^64,"
+        "rule": "whole-application runs (real app.App through ABCI, Replica): replays of the recorded findings (all fixed: expected to HOLD) + 7 witnesses (incl. several unstakes of one delegator in one block through maturity and withdrawal; a self-staking candidate with a foreign public key + junk in signature slot 0) + the 5 directed "
+                "scenarios + adversarial-amount histories (22 value-moving kinds incl. self-staked STAKE/UNSTAKE/WITHDRAW; per kind also signature lists with a foreign key + junk in the first / last slot at a high fee price; x amounts {-2^64,-1,0,1,base-1,base,base+1,2^63-1,2^63,2^64,"
                 "2^64+1,10^40} relative to the observed source record x currencies {OLT,ETH,unregistered,empty}; every address field replaced by "
                 "other accounts, signed by the rightful signers / the attacker / the named account) + seeded random histories over ~35 kinds incl. OLVM "
                 "(genHistory); evaluations = ABCI steps (BeginBlock, DeliverTx, EndBlock) whose decoded ledger change was judged by the monitors; "
